@@ -22,7 +22,35 @@ import numpy as np
 from harness.core import MachineryError, b2f, f2b, flist, parse_flist, unjson_float
 from harness import extract
 
-MODEL_MODULES = ['SkyllhModel.Model.Livetime', 'SkyllhModel.Model.Pdf']
+MODEL_MODULES = ['SkyllhModel.Model.Livetime', 'SkyllhModel.Model.Pdf', 'SkyllhModel.Model.PdfR7']
+
+# which callables of the current source have an executable Lean counterpart that the theorems are about AND that run(ctx) compares
+# with the real callable on every run
+MODEL_MAP = {
+    'skyllh/core/pdf.py::TimePDF._calculate_sum_of_ontime_time_flux_profile_integrals': ['Pdf.timeS', 'Pdf.timeSSpec', 'Pdf.calcS'],
+    'skyllh/core/pdf.py::TimePDF._update_time_axis_and_S': ['Pdf.refresh2'],
+    'skyllh/core/pdf.py::TimePDF._is_S_up_to_date': ['Pdf.upToDate'],
+    'skyllh/core/pdf.py::TimePDF._ensure_S_is_up_to_date': ['Pdf.ensure2'],
+    'skyllh/core/pdf.py::TimePDF.assert_is_valid_for_trial_data': ['Pdf.tValid'],
+    'skyllh/core/signalpdf.py::SignalTimePDF._calculate_pd': ['Pdf.calcPdRows', 'Pdf.rowPass', 'Pdf.setParamsRow', 'Pdf.calcPdMulti', 'Pdf.timePd'],
+    'skyllh/core/signalpdf.py::SignalTimePDF.initialize_for_new_trial': ['Pdf.tInitRows'],
+    'skyllh/core/signalpdf.py::SignalTimePDF.get_pd': ['Pdf.tGetRows', 'Pdf.tGet'],
+    'skyllh/core/backgroundpdf.py::BackgroundTimePDF.initialize_for_new_trial': ['Pdf.timePd', 'Pdf.trialPd', 'Pdf.bStep'],
+    'skyllh/core/backgroundpdf.py::BackgroundTimePDF.get_pd': ['Pdf.bGet'],
+    'skyllh/core/pdf.py::PDFProduct.get_pd': ['Pdf.pStep'],
+    'skyllh/core/pdf.py::MultiDimGridPDF.get_pd_with_eventdata': ['Pdf.gmEval', 'Pdf.interp2'],
+    'skyllh/core/pdf.py::MultiDimGridPDF.get_pd': ['Pdf.gEval'],
+    'skyllh/i3/pdf.py::I3EnergyPDF.__init__': ['Pdf.energyBand', 'Pdf.normBand', 'Pdf.smooth', 'Pdf.histAt'],
+    'skyllh/i3/pdf.py::I3EnergyPDF.assert_is_valid_for_trial_data': ['Pdf.inRange'],
+    'skyllh/i3/pdf.py::I3EnergyPDF.get_pd': ['Pdf.energyPd', 'Pdf.lookup'],
+    'skyllh/i3/backgroundpdf.py::BackgroundI3SpatialPDF.__init__': ['Pdf.spatialHist', 'Pdf.spInit'],
+    'skyllh/i3/backgroundpdf.py::BackgroundI3SpatialPDF.add_events': ['Pdf.spStep'],
+    'skyllh/i3/backgroundpdf.py::BackgroundI3SpatialPDF.reset': ['Pdf.spStep'],
+    'skyllh/i3/backgroundpdf.py::BackgroundI3SpatialPDF.get_pd': ['Pdf.spatialPd'],
+    'skyllh/core/signalpdf.py::GaussianPSFPointLikeSourceSignalSpatialPDF.get_pd': ['Pdf.psfPd'],
+    'skyllh/core/signalpdf.py::RayleighPSFPointSourceSignalSpatialPDF.initialize_for_new_trial': ['Pdf.rayleighPd'],
+    'skyllh/core/smoothing.py::NeighboringBinHistSmoothingMethod.smooth': ['Pdf.smooth', 'Pdf.convSame'],
+}
 
 REL = 1e-9
 
@@ -138,6 +166,8 @@ BRANCHES = [
     'eStep:callerWrites', 'eStep:get', 'eStep:valid', 'pStep:evalProduct', 'pStep:readLeft', 'pStep:readRight',
     'srcPass:own-source', 'srcPass:other-source', 'calcPdMulti:source-without-values',
     'rayleighPd:psi=0', 'rayleighPd:psi>0', 'trialPd:equal-count', 'trialPd:new-count',
+    'setParamsRow:empty', 'setParamsRow:same', 'setParamsRow:new', 'rowPass:up-to-date', 'rowPass:stale-refreshed',
+    'tGetRows:cached', 'tGetRows:calculated', 'tInitRows', 'bStep:getPd', 'bGet:refuses', 'bGet:answers',
 ]
 _BR = {}
 
@@ -1264,10 +1294,22 @@ def o_time_ext(ctx, case):
                 return ('%s time PDF, history %r: assert_is_valid_for_trial_data %s the time %r, the current live-time spans [%r, %r]' % (
                     case['which'], [o[0] for o in case['ops']], 'accepts' if okv else 'rejects', tv, lo_, hi_))
     outs = [o_ for o_ in outs if o_[0] != 'V']
+    # which get_pd calls directly follow an initialize_for_new_trial (nothing changed in between): those must answer
+    g_clean, clean, seen_i = [], False, False
+    for op in case['ops']:
+        if op[0] == 'I':
+            clean, seen_i = True, True
+        elif op[0] in ('L', 'M', 'Q', 'X'):
+            clean = False
+        elif op[0] == 'G' and seen_i:
+            g_clean.append(clean)
     for k, (times, got, want, axis, win, ivs, w) in enumerate(outs):
         hist = [o[0] for o in case['ops']]
         if isinstance(got, str):
             if case['which'] == 'bkg':
+                if k < len(g_clean) and g_clean[k]:
+                    return ('BackgroundTimePDF, history %r (initial live-time %r, profile %r): get_pd number %d raises RuntimeError although the PDF was '
+                            'initialised for its current live-time and profile and nothing was changed since') % (case['ops'], case['ivs'], case['prof'], k + 1)
                 continue
             return 'SignalTimePDF.get_pd raised RuntimeError in the history %r' % hist
         for t, a, b in zip(times, got, want):
@@ -1324,6 +1366,45 @@ def compare_state2(case, outs, ans):
     return None
 
 
+def o_corr_bkg2(ctx, case):
+    try:
+        outs, req = run_ext(case)
+    except Exception as e:  # noqa
+        return 'time PDF history raised %s: %s' % (type(e).__name__, e)
+    return compare_bkg2(case, outs, ctx.driver('C10', [req.replace('tstate2', 'tbkg', 1)])[0])
+
+
+def compare_bkg2(case, outs, ans):
+    """BackgroundTimePDF: RuntimeError <=> the model's bGet refuses (exact decision), else the values"""
+    if not outs:
+        return None
+    ms = ans.split(' ')
+    if len(ms) != len(outs):
+        raise MachineryError('tbkg: %d answers for %d outputs' % (len(ms), len(outs)))
+    for k, (o_, m) in enumerate(zip(outs, ms)):
+        if o_[0] == 'V':
+            if m != ('v1' if o_[2] else 'v0'):
+                return 'bkg validity check of t=%r: implementation %s, model %s' % (o_[1], 'accepts' if o_[2] else 'rejects', m)
+            continue
+        (times, got, want, axis, win, ivs, w) = o_
+        br('bStep:getPd')
+        br('bGet:refuses' if m == 'RT' else 'bGet:answers')
+        if isinstance(got, str) != (m == 'RT'):
+            return 'history %r, BackgroundTimePDF.get_pd number %d: implementation %s, model %s' % (
+                [o[0] for o in case['ops']], k + 1, 'raises RuntimeError' if isinstance(got, str) else 'returns values',
+                'refuses' if m == 'RT' else 'returns values')
+        if m == 'RT':
+            continue
+        mag = max([abs(x) for p in ivs for x in p] + [abs(v) for v in w if math.isfinite(v)])
+        overlap = sum(hi - lo for lo, hi in on_window_pieces(ivs, *w))
+        rel = 1e-9 + (16 * (len(ivs) + 2) * float(np.spacing(mag)) / overlap if overlap > 0 else 0.0)
+        for t, a, b in zip(times, got, parse_flist(m)):
+            if not close(float(a), b, min(rel, 0.5)) and not (overlap > 0 and rel > 0.25):
+                return 'history %r, BackgroundTimePDF.get_pd number %d, pd(t=%r): implementation %r, model %r' % (
+                    [o[0] for o in case['ops']], k + 1, t, float(a), b)
+    return None
+
+
 def gen_ext_history(rng, ivs, prof):
     """box profile; init / get with every kind of change in between"""
     def box():
@@ -1357,6 +1438,324 @@ def gen_ext_history(rng, ivs, prof):
             ops.append(['G'])
     ops.append(['G'])
     return ops
+
+
+# ------------------------------------------------------------------------------------------
+# round 7: get_pd with parameter rows after the (shared, public) profile object was changed from outside
+
+X_HOWS = ('t0', 'tw', 'move', 'set_params', 'other')
+
+
+def run_rows(case):
+    """histories on ONE SignalTimePDF (pmm=None) whose TimeFluxProfile object is changed from outside between the
+    evaluations.  ops: ['I'] (initialize_for_new_trial, K = 1 only) | ['X', how, {'t0','tw'}] with how = profile.t0 = / profile.tw = /
+    profile.move(dt) / profile.set_params / a second SignalTimePDF sharing the profile object evaluates get_pd with that row |
+    ['L', ivs] | ['M', ivs] | ['G', rows] with rows = K entries None (empty recarray, dtype=[]) | 'cur' (row carrying the
+    profile's current values: set_params reports no change) | {'t0','tw'} (new values).
+    Returns per G: (times, [per-source got], [per-source fresh reference], ivs, [window per source]) and the model request."""
+    import copy
+    from skyllh.core.signalpdf import SignalTimePDF
+    ivs = [(unjson_float(a), unjson_float(b)) for a, b in case['ivs']]
+    ivs0 = list(ivs)
+    K = case['K']
+    times = fl(case['times'])
+    profile = mk_profile(case['prof'])
+    pn = ('t0', 'tw') if case['prof']['kind'] == 'box' else ('t0', 'sigma_t')     # the profile's parameter names
+    form = case.get('form', 'plain')
+    pmm = None
+    if form == 'pmm':
+        # the real ParameterModelMapper of K sources without time parameters (constant PDF): its recarray carries ':model_idx'
+        from skyllh.core.parameters import ParameterModelMapper
+        from skyllh.core.source_model import SourceModel
+        pmm = ParameterModelMapper(models=[SourceModel() for _ in range(K)])
+    pdf = SignalTimePDF(pmm=pmm, livetime=mk_lt(ivs), time_flux_profile=profile, cfg=cfg())
+    other = None
+    tdm = TDM(n_sources=K, time=times)
+    table = [window_of(pdf)]
+    toks, outs = [], []
+
+    def cur_of(prof_obj):
+        return tuple(float(getattr(prof_obj, n)) for n in pn)
+
+    def idx(w):
+        if w not in table:
+            table.append(w)
+        return table.index(w)
+
+    def rec_of(rows, prof_obj):
+        """(recarray, carries parameter values?)"""
+        if all(r is None for r in rows):
+            if pmm is not None and len(rows) == K:
+                return pmm.create_src_params_recarray(gflp_values=[]), False
+            return np.empty((len(rows),), dtype=[]), False
+        fields = [(pn[0], np.float64), (pn[1], np.float64)]
+        if pmm is not None:
+            fields = [(':model_idx', np.int32), (pn[0], np.float64), (pn[0] + ':gpidx', np.int32), (pn[1], np.float64), (pn[1] + ':gpidx', np.int32)]
+        rec = np.zeros((len(rows),), dtype=fields)
+        if pmm is not None:
+            rec[':model_idx'] = np.arange(len(rows))
+        cur = cur_of(prof_obj)
+        for k, r in enumerate(rows):
+            if isinstance(r, dict):
+                cur = (unjson_float(r[pn[0]]), unjson_float(r[pn[1]]))
+            rec[pn[0]][k], rec[pn[1]][k] = cur
+        return rec, True
+    with warnings.catch_warnings():
+        warnings.simplefilter('ignore')
+        for op in case['ops']:
+            if op[0] == 'I':
+                pdf.initialize_for_new_trial(tdm)
+                toks.append('I' + flist(times))
+            elif op[0] == 'L':
+                ivs = [(unjson_float(a), unjson_float(b)) for a, b in op[1]]
+                pdf.livetime = mk_lt(ivs)
+                toks.append('L' + flist([x for p in ivs for x in p]))
+            elif op[0] == 'M':
+                ivs = [(unjson_float(a), unjson_float(b)) for a, b in op[1]]
+                pdf.livetime.uptime_mjd_intervals_arr = np.array(ivs, dtype=np.float64).reshape((-1, 2))
+                toks.append('M' + flist([x for p in ivs for x in p]))
+            elif op[0] == 'C':
+                # the history continues on a copy of the PDF object (provenance is no part of the state: no model token)
+                import pickle
+                if op[1] == 'copy':
+                    pdf = copy.copy(pdf)
+                elif op[1] == 'deepcopy':
+                    pdf = copy.deepcopy(pdf)
+                else:
+                    try:
+                        blob = pickle.dumps(pdf)
+                    except Exception:  # noqa  not picklable in this configuration: the history goes on with the original
+                        blob = None
+                    if blob is not None:
+                        pdf = pickle.loads(blob)
+                profile = pdf.time_flux_profile
+                pmm = pdf.pmm
+                other = None
+            elif op[0] == 'X':
+                how, t0, tw = op[1], unjson_float(op[2][pn[0]]), unjson_float(op[2][pn[1]])
+                if how == 't0':
+                    profile.t0 = t0
+                elif how == 'tw':
+                    setattr(profile, pn[1], tw)
+                elif how == 'move':
+                    profile.move(t0 - float(profile.t0))
+                elif how == 'set_params':
+                    profile.set_params({pn[0]: t0, pn[1]: tw})
+                else:
+                    if other is None:
+                        other = SignalTimePDF(pmm=None, livetime=mk_lt(ivs0), time_flux_profile=profile, cfg=cfg())
+                    orec = np.zeros((1,), dtype=[(pn[0], np.float64), (pn[1], np.float64)])
+                    orec[pn[0]], orec[pn[1]] = t0, tw
+                    other.get_pd(TDM(time=times[:1]), orec)
+                toks.append('X%d' % idx(window_of(pdf)))
+            elif op[0] == 'G':
+                rows = op[1]
+                rec, named = rec_of(rows, profile)
+                shadow = copy.deepcopy(profile)
+                want, wins, rtoks = [], [], []
+                for k, r in enumerate(rows):
+                    if named:
+                        shadow.set_params({pn[0]: float(rec[pn[0]][k]), pn[1]: float(rec[pn[1]][k])})
+                    fresh = SignalTimePDF(pmm=None, livetime=mk_lt(ivs), time_flux_profile=copy.deepcopy(shadow), cfg=cfg())
+                    want.append(eval_timepdf(fresh, 'sig', times))
+                    w = (float(shadow.t_start), float(shadow.t_stop))
+                    wins.append(w)
+                    rtoks.append('n' if not named else str(idx(w)))
+                got = np.array(pdf.get_pd(tdm, rec)[0], dtype=np.float64, copy=True)
+                if len(got) != K * len(times):
+                    raise MachineryError('get_pd returned %d values for %d sources x %d events' % (len(got), K, len(times)))
+                outs.append((times, [got[k * len(times):(k + 1) * len(times)] for k in range(K)], want, list(ivs), wins))
+                toks.append('R%s/%s' % (flist(times), ':'.join(rtoks)))
+    req = 'trows %s %s %s 0 0 %s' % (flist([w[0] for w in table]), flist([w[1] for w in table]),
+                                       flist([x for p in ivs0 for x in p]), ' '.join(toks))
+    return outs, req.strip()
+
+
+def o_time_rows(ctx, case):
+    """after the TimeFluxProfile object of a SignalTimePDF was changed from outside (attribute, move, set_params, another PDF
+    sharing it), get_pd / initialize_for_new_trial with an empty parameter row, with rows equal to the profile's current values
+    or with new values returns for every source what a fresh PDF for the current live-time and that source's profile state returns
+    (density normalised over the on-time of the CURRENT window, never divided by the S of an earlier window)."""
+    try:
+        outs, _ = run_rows(case)
+    except MachineryError:
+        raise
+    except Exception as e:  # noqa
+        return 'SignalTimePDF history %r raised %s: %s' % ([o[:2] for o in case['ops']], type(e).__name__, e)
+    for k, (times, got, want, ivs, wins) in enumerate(outs):
+        for j, (g, w_) in enumerate(zip(got, want)):
+            for t, a, b in zip(times, g, w_):
+                if not close(float(a), float(b), 1e-12) or (not ref_is_on(ivs, t) and a != 0):
+                    return ('SignalTimePDF (initial live-time %r, profile %r), history %r: get_pd number %d, source %d returns pd(t=%r) = %r; '
+                            'for the current live-time %r and profile window %r a fresh PDF gives %r (stale normalisation S)') % (
+                        case['ivs'], case['prof'], case['ops'], k + 1, j, t, float(a), ivs, wins[j], float(b))
+    return None
+
+
+def o_corr_rows(ctx, case):
+    try:
+        outs, req = run_rows(case)
+    except MachineryError:
+        raise
+    except Exception as e:  # noqa
+        return 'SignalTimePDF history raised %s: %s' % (type(e).__name__, e)
+    return compare_rows(case, outs, ctx.driver('C10', [req])[0])
+
+
+def compare_rows(case, outs, ans):
+    # branches of the model functions of Model/PdfR7.lean (decided by the history alone)
+    cached, dirty = False, False
+    for op in case['ops']:
+        if op[0] == 'I':
+            br('tInitRows')
+            br('rowPass:stale-refreshed' if dirty else 'rowPass:up-to-date')
+            cached, dirty = True, False
+        elif op[0] in ('L',):
+            cached, dirty = False, False
+        elif op[0] in ('M', 'X'):
+            dirty = True
+        elif op[0] == 'G':
+            if cached and not dirty:
+                br('tGetRows:cached')
+                continue
+            br('tGetRows:calculated')
+            for r in op[1]:
+                br('setParamsRow:empty' if all(x is None for x in op[1]) else 'setParamsRow:same' if not isinstance(r, dict) else 'setParamsRow:new')
+                if isinstance(r, dict):
+                    dirty = True
+                br('rowPass:stale-refreshed' if dirty else 'rowPass:up-to-date')
+                if dirty:
+                    cached = False
+                dirty = False
+    if not outs:
+        return None
+    ms = ans.split(' ')
+    if len(ms) != len(outs):
+        raise MachineryError('trows: %d answers for %d get_pd calls (%r)' % (len(ms), len(outs), ans[:200]))
+    for k, ((times, got, want, ivs, wins), m) in enumerate(zip(outs, ms)):
+        parts = m.split('|')
+        if len(parts) != len(got):
+            return 'get_pd number %d: implementation returns %d sources, model %d' % (k + 1, len(got), len(parts))
+        for j, (g, pm, w) in enumerate(zip(got, parts, wins)):
+            if pm == 'ERR':
+                return 'get_pd number %d source %d: model window query raises, implementation returns values' % (k + 1, j)
+            mag = max([abs(x) for p in ivs for x in p] + [abs(v) for v in w if math.isfinite(v)])
+            overlap = sum(hi - lo for lo, hi in on_window_pieces(ivs, *w))
+            rel = 1e-9 + (16 * (len(ivs) + 2) * float(np.spacing(mag)) / overlap if overlap > 0 else 0.0)
+            for t, a, b in zip(times, g, parse_flist(pm)):
+                if not close(float(a), b, min(rel, 0.5)) and not (overlap > 0 and rel > 0.25):
+                    return 'history %r, get_pd number %d, source %d, pd(t=%r): implementation %r, model %r' % (
+                        [o[:2] for o in case['ops']], k + 1, j, t, float(a), b)
+    return None
+
+
+def gen_rows_case(rng, k):
+    """directed (template k mod 10, always generated) + random tail.  The outside change always moves the window to one with a
+    clearly different on-time overlap, and the trial holds on-time events inside the new window."""
+    def overlap(p):
+        ts, te = p['t0'] - 0.5 * p['tw'], p['t0'] + 0.5 * p['tw']
+        return sum(hi - lo for lo, hi in on_window_pieces(ivs, ts, te))
+
+    def box(avoid=None):
+        for _ in range(200):
+            p = gen_profile(rng, ivs)
+            if p['kind'] != 'box' or not p['tw'] > 0:
+                continue
+            o = overlap(p)
+            if o > 0 and (avoid is None or abs(o - avoid) > 0.05 * max(o, avoid)):
+                return p, o
+        return None, None
+    while True:
+        ivs = gen_intervals(rng, rng.choice([1, 2, 3, 3, 5, 8]))
+        p1, o1 = box()
+        if p1 is None:
+            continue
+        p2, o2 = box(o1)
+        if p2 is None:
+            continue
+        p3, o3 = box(o2)
+        if p3 is None:
+            continue
+        break
+    d2 = {'t0': p2['t0'], 'tw': p2['tw']}
+    d3 = {'t0': p3['t0'], 'tw': p3['tw']}
+    how = X_HOWS[k % len(X_HOWS)]
+    if how == 't0':
+        d2 = {'t0': p2['t0'], 'tw': p1['tw']}
+    elif how == 'tw':
+        d2 = {'t0': p1['t0'], 'tw': p2['tw']}
+    elif how == 'move':
+        d2 = {'t0': p2['t0'], 'tw': p1['tw']}
+    # event times: on-time points of the window the profile is moved to, plus the usual interesting ones
+    ts2, te2 = d2['t0'] - 0.5 * d2['tw'], d2['t0'] + 0.5 * d2['tw']
+    pool = interesting_times(rng, ivs, ts2, te2, n_rand=6)
+    inside = [0.5 * (lo + hi) for lo, hi in on_window_pieces(ivs, ts2, te2)]
+    times = (inside[:2] + [rng.choice(pool) for _ in range(rng.choice([1, 2, 4]))]) if inside else [rng.choice(pool) for _ in range(3)]
+    tmpl = (k // len(X_HOWS)) % 6
+    X = ['X', how, d2]
+    K = 1
+    if tmpl == 0:      # evaluated, changed from outside, evaluated with the empty row
+        ops = [['G', [None]], X, ['G', [None]]]
+    elif tmpl == 1:    # changed before the first evaluation; row = the profile's current values
+        ops = [X, ['G', ['cur']]]
+    elif tmpl == 2:    # pre-calculated, changed, get_pd
+        ops = [['I'], ['G', [None]], X, ['G', [None]]]
+    elif tmpl == 3:    # changed, then initialize_for_new_trial (empty rows inside) and get_pd
+        ops = [['G', [None]], X, ['I'], ['G', [None]]]
+    elif tmpl == 4:    # parameters through get_pd, changed from outside, current values again
+        ops = [['G', [d3]], X, ['G', ['cur']]]
+    else:              # two sources
+        K = 2
+        ops = [['G', [d3, 'cur']], X, ['G', ['cur', 'cur']], ['G', [d3, dict(d2)]]]
+    inited = any(o[0] == 'I' for o in ops)
+    if rng.random() < 0.4:
+        # the object the history goes on with was obtained through copy / deepcopy / pickle, before or after the outside change
+        ops.insert(rng.choice([j for j in range(len(ops) + 0) if ops[j][0] in ('X', 'G')] or [0]) + rng.choice([0, 1]), ['C', rng.choice(['copy', 'deepcopy', 'pickle'])])
+    for _ in range(rng.choice([0, 0, 1, 2])):
+        r = rng.random()
+        if r < 0.2:
+            ops.append(['L' if rng.random() < 0.5 else 'M', [list(p) for p in vary_intervals(rng, ivs)]])
+        elif r < 0.6:
+            pn, _o = box()
+            if pn is not None:
+                ops.append(['X', rng.choice(['set_params', 'other']), {'t0': pn['t0'], 'tw': pn['tw']}])
+        ops.append(['G', [None] * K if inited else [rng.choice([None, 'cur'])] * K if rng.random() < 0.7 else [d3] + ['cur'] * (K - 1)])
+    return {'ivs': [list(p) for p in ivs], 'prof': p1, 'K': K, 'times': times, 'ops': ops, 'form': rng.choice(['plain', 'pmm'])}
+
+
+
+def gen_rows_case_gauss(rng, k):
+    """the same directed templates for a gaussian profile (t0 / sigma_t): oracle only (the `trows` model op is for box windows).
+    The profile is moved from the middle of an on-time interval to an interval edge (about half of it in off-time or in the next interval)."""
+    while True:
+        ivs = gen_intervals(rng, rng.choice([1, 2, 3, 5]))
+        good = [(a, b) for a, b in ivs if b - a > 0]
+        if good:
+            break
+    a, b = rng.choice(good)
+    sg = (b - a) * rng.choice([0.02, 0.1, 0.3])
+    p1 = {'kind': 'gauss', 't0': 0.5 * (a + b), 'sigma': sg, 'tol': None}
+    a2, b2 = rng.choice(good)
+    sg2 = sg * rng.choice([0.3, 1.0, 3.0])
+    how = X_HOWS[k % len(X_HOWS)]
+    d2 = {'t0': rng.choice([a2, b2]), 'sigma_t': sg2}
+    if how in ('t0', 'move'):
+        d2['sigma_t'] = sg
+    elif how == 'tw':
+        d2 = {'t0': p1['t0'], 'sigma_t': sg * rng.choice([0.2, 5.0, 20.0])}
+    d3 = {'t0': a + (b - a) * rng.random(), 'sigma_t': sg * rng.choice([0.5, 2.0])}
+    w = 3.0 * d2['sigma_t']
+    cand = [d2['t0'] + u * w for u in (-0.5, -0.1, 0.1, 0.5, 0.0)]
+    lo, hi = ivs[0][0], ivs[-1][1]
+    times = [t for t in cand if lo <= t <= hi and ref_is_on(ivs, t)][:3] + [rng.choice([x for p in ivs for x in p])]
+    X = ['X', how, d2]
+    tmpl = (k // len(X_HOWS)) % 5
+    ops = [[['G', [None]], X, ['G', [None]]],
+           [X, ['G', ['cur']]],
+           [['I'], ['G', [None]], X, ['G', [None]]],
+           [['G', [None]], X, ['I'], ['G', [None]]],
+           [['G', [d3]], X, ['G', ['cur']]]][tmpl]
+    return {'ivs': [list(p) for p in ivs], 'prof': p1, 'K': 1, 'times': times, 'ops': ops, 'form': rng.choice(['plain', 'pmm'])}
 
 
 def _caller_arrays(case):
@@ -2679,7 +3078,7 @@ ORACLES = {
     'time_trials': o_time_trials, 'rayleigh_trials': o_rayleigh_trials, 'spatial_history': o_spatial_history,
     'corr_time': o_corr_time, 'corr_state': o_corr_state, 'corr_energy': o_corr_energy,
     'corr_spatial': o_corr_spatial, 'corr_psf': o_corr_psf, 'corr_trials': o_corr_trials, 'corr_sstate': o_corr_sstate,
-    'energy_large': o_energy_large, 'time_ext': o_time_ext, 'corr_state2': o_corr_state2,
+    'energy_large': o_energy_large, 'time_ext': o_time_ext, 'corr_state2': o_corr_state2, 'time_rows': o_time_rows, 'corr_rows': o_corr_rows, 'corr_bkg2': o_corr_bkg2,
     'inputs_independent': o_inputs_independent, 'corr_eobj': o_corr_eobj, 'energy_variants': o_energy_variants, 'ratio_consumer': o_ratio_consumer, 'time_pmm': o_time_pmm, 'corr_pmm': o_corr_pmm, 'valid_evaluable': o_valid_evaluable, 'grid_cache': o_grid_cache, 'corr_gcache': o_corr_gcache, 'product': o_product, 'corr_product': o_corr_product,
 }
 
@@ -2761,7 +3160,9 @@ def run(ctx):
                 'times at all edges, float neighbours, window edges, gaps, random; histories of set_params / livetime / profile '
                 'assignments; energy PDFs: 1..8 x 1..6 bins (uniform and irregular), 0..120 MC events incl. events on inner and '
                 'outermost edges, outside, zero physics weight, empty declination bands, none/block/gaussian smoothing; spatial '
-                'PDFs: 3..15 bins, 0..6000 events, spline order 1..3; PSF: sigma 1e-3..1 rad; distinct by full input')
+                'PDFs: 3..15 bins, 0..6000 events, spline order 1..3; PSF: sigma 1e-3..1 rad; directed histories get_pd / profile object changed from outside '
+                '(attribute, move, set_params, second PDF sharing it) / get_pd or initialize_for_new_trial with empty, current-value and new parameter rows '
+                '(plain and ParameterModelMapper recarray forms, 1-2 sources, box and gaussian, object obtained through copy/deepcopy/pickle); distinct by full input')
     ctx.trusted_base += ['correspondence harness harness/props/c10.py (relations: 1e-9 relative + stated cancellation bounds; decisions exact)',
                          'scipy.special.erf (passed to the model as a table; theorem hypothesis: derivative of erf)',
                          'scipy InterpolatedUnivariateSpline, scipy.signal.convolve, numpy.histogram(2d)/digitize semantics re-implemented in Model/Pdf.lean',
@@ -2829,6 +3230,8 @@ def run(ctx):
             oracle_cases.append(('time_ext', ec))
             if which == 'sig':
                 corr.append(('corr_state2', ec))
+            else:
+                corr.append(('corr_bkg2', ec))
         if rng.random() < 0.45:
             # several trials on one object: equal and different event counts, on/off pattern changing per index
             mode = rng.choice(['direct', 'init']) if which == 'sig' else 'init'
@@ -2866,6 +3269,23 @@ def run(ctx):
                 if rng.random() < 0.3:
                     rows.append(dict(rows[0]))
                 oracle_cases.append(('time_multi', {'ivs': [list(p) for p in ivs], 'prof': prof, 'rows': rows, 'times': times[:10]}))
+    # ---- round 7: directed histories "profile object changed from outside, then evaluated" (every template x every way, always)
+    for k in range(ctx.n(60, 1200)):
+        rc = gen_rows_case(rng, k)
+        for o in rc['ops']:
+            ctx.count('rows-op:' + o[0] + (':' + o[1] if o[0] in ('X', 'C') else ''))
+            if o[0] == 'G':
+                for r in o[1]:
+                    ctx.count('rows-row:' + ('empty' if r is None else 'current' if r == 'cur' else 'new'))
+        ctx.count('rows:K=%d' % rc['K'])
+        ctx.count('rows:recarray-form:' + rc['form'])
+        oracle_cases.append(('time_rows', rc))
+        corr.append(('corr_rows', rc))
+    for k in range(ctx.n(25, 500)):
+        rc = gen_rows_case_gauss(rng, k)
+        ctx.count('rows:gauss:' + rc['ops'][[o[0] for o in rc['ops']].index('X')][1])
+        ctx.count('rows:recarray-form:' + rc['form'])
+        oracle_cases.append(('time_rows', rc))
     # ---- energy PDFs
     for _ in range(ctx.n(150, 6000)):
         case = gen_energy_case(rng, nprng)
@@ -3006,6 +3426,14 @@ def run(ctx):
                 outs, r1 = run_ext(case)
                 r = [r1]
                 cmp_ = lambda a, case=case, outs=outs: compare_state2(case, outs, a[0])
+            elif name == 'corr_bkg2':
+                outs, r1 = run_ext(case)
+                r = [r1.replace('tstate2', 'tbkg', 1)]
+                cmp_ = lambda a, case=case, outs=outs: compare_bkg2(case, outs, a[0])
+            elif name == 'corr_rows':
+                outs, r1 = run_rows(case)
+                r = [r1]
+                cmp_ = lambda a, case=case, outs=outs: compare_rows(case, outs, a[0])
             elif name == 'corr_sstate':
                 r, impl = sstate_corr(case)
                 cmp_ = lambda a, case=case, impl=impl: compare_sstate(case, impl, a[0])
@@ -3042,7 +3470,7 @@ def run(ctx):
 
     # ---- model/implementation disagreements: look for a failing input with the oracles, else report the relation
     related = {'corr_time': ['time_norm'], 'corr_state': ['time_fresh'], 'corr_energy': ['energy_norm', 'energy_eval'],
-               'corr_spatial': ['spatial_norm'], 'corr_psf': ['psf_norm'], 'corr_trials': ['time_trials'], 'corr_sstate': ['spatial_history'], 'corr_state2': ['time_ext'], 'corr_gcache': ['grid_cache'], 'corr_pmm': ['time_pmm'], 'corr_eobj': ['inputs_independent'], 'corr_product': ['product']}
+               'corr_spatial': ['spatial_norm'], 'corr_psf': ['psf_norm'], 'corr_trials': ['time_trials'], 'corr_sstate': ['spatial_history'], 'corr_state2': ['time_ext'], 'corr_rows': ['time_rows'], 'corr_bkg2': ['time_ext'], 'corr_gcache': ['grid_cache'], 'corr_pmm': ['time_pmm'], 'corr_eobj': ['inputs_independent'], 'corr_product': ['product']}
     seen = set()
     for name, case, d in sorted(suspicious, key=lambda x: len(repr(x[1]))):
         if name in seen:
@@ -3097,7 +3525,7 @@ MANIFEST = dict(
           'arbitrary histories of parameter/live-time/profile updates. Energy histogram: every band with content integrates to 1, empty '
           'bands are 0, non-negative with and without smoothing, smoothing preserves constants, every value accepted by the validity check is looked up in the bin '
           'numpy.histogram2d filled; the histogram PDF object is independent of later in-place writes of its caller into the arrays handed in (c10_energy_object_independent_of_caller); smoothed band mass within the proved column-sum bounds; MultiDimGridPDF: bilinear interpolant non-negative, valid points are interpolated, the pd cache (incl. event subsets) is transparent for every evaluation sequence (c10_grid_cache_transparent) and PDFProduct leaves its factors alone (c10_product_pure) (one field for check and lookup; the two-field check before the fix is refuted). get_pd is current after any history of setters / shared-profile / nested live-time changes between initialize_for_new_trial and get_pd (fingerprinted S, dropped _pd). Several trials on one time-PDF object return the stateless density (buffer as coded). Spatial histogram with 1/2pi normalised over the covered sphere, also after any add_events/reset history; gaussian PSF integrates to 1 over the plane, '
-          'Rayleigh form to 1-exp(-pi^2/2sigma^2) over the sphere. The source loop of SignalTimePDF (real src_evt_idxs) is pointwise the single-source density; the validity check follows the live-time. The executable model is compared with the real SignalTimePDF, '
+          'Rayleigh form to 1-exp(-pi^2/2sigma^2) over the sphere. The source loop of SignalTimePDF (real src_evt_idxs) is pointwise the single-source density; get_pd with a parameter recarray (empty rows, rows equal to the current values of the profile, new values, one or two sources) after the public profile object was changed from outside (attribute, move, set_params, a second PDF sharing it) evaluates every source with the normalisation of its own current profile state (c10_time_getpd_rows_current, c10_time_rows_normalised_box; the variant that refreshes S only when set_params reports a change is refuted); BackgroundTimePDF.get_pd after any history raises its RuntimeError or returns the current density, and answers directly after initialize_for_new_trial (c10_time_bkg_getpd_current_or_refuses, c10_time_bkg_getpd_after_init); the validity check follows the live-time. The executable model is compared with the real SignalTimePDF, '
           'BackgroundTimePDF, I3EnergyPDF, BackgroundI3SpatialPDF and PSF classes on every run; quadrature / exact-fraction / '
           'fresh-vs-used oracles search the implementation for failing inputs, incl. real MultiDimGridPDF (cache x norm_factor_func x call sequence) and PDFProduct objects.'),
     note=('Theorems over ordered fields / R, not IEEE doubles. erf is not in Mathlib: gaussian profile from the hypothesis erf\' = '
